@@ -22,6 +22,7 @@ func runC05(c *Ctx) {
 	borrow(c, "O12", "C08", "O6", "given to the queue is in bytes", "a limit enforced a million times too low refuses every workload of the queue although capacity is free")
 	runC05FilterNodes(c)
 	borrow(c, "O17", "C03", "O4", "ShouldPipelineJob true path", "a gang whose minimum is met exactly by pods placed on idle resources must be bound: a non-strict comparison turns every such round into a pipelined one as soon as one sibling waits for releasing resources, and pods that fit on idle nodes stay unbound")
+	borrow(c, "O19", "C03", "O4", "JobSolver).Solve true path", "progress is measured with one count before and after the solve: a mixed pair of counts (terminating pods included before, excluded after) marks every solution of a restarted workload as no progress, the statement is dropped and the workload stays pending although victims were found")
 	borrow(c, "O16", "C07", "O7", "", "a queue limit taken from another resource (the memory limit from the CPU limit) refuses workloads that fit every configured limit: they stay pending although the cluster and the queue have room")
 	borrow(c, "O14", "C08", "O13", "usage is accumulated for the allocated statuses", "a queue that is charged with its terminating pods looks fuller than it is: workloads that fit within its limit are refused and reclaimers within quota are turned away")
 	borrow(c, "O9", "C01", "O7", "BindPod failure -> unallocate", "resources of a pod whose bind failed stay consumed in the session and a later job that fits is left pending")
